@@ -53,7 +53,15 @@ def fillTL1 (d : Desc) : Nat → Nat → List Nat → Val → Except CErr Val
 
 def jsonFuel (d : Desc) (n : Nat) : Nat := n + d.insts.size + 16
 
+/-- TL2-origin types have no TL1 serializers (`item.HasTL1()` is false) -/
+def originTL2 (d : Desc) (ty : Nat) : Bool :=
+  match d.get? ty with
+  | some (.struct s) => s.originTL2
+  | some (.union u) => unionOriginTL2 d u
+  | _ => false
+
 def boxedOut (d : Desc) (fuel ty : Nat) (v : Val) : String :=
+  if originTL2 d ty then "n/a" else
   if hasBoxed d ty then
     match fillTL1 d fuel ty [] v with
     | .ok v' => outBytes (writeTL1 d fuel ty false [] v')
